@@ -21,6 +21,7 @@ import itertools
 import os
 import shutil
 import tempfile
+import threading
 import time
 
 from harness import detsched as ds
@@ -260,6 +261,26 @@ def do_call(tid, c):
     return None
 
 
+LINE_YIELD_FILES = ("watchdog/observers/api.py",)
+
+
+def line_tracer(s):
+    """prog["line_yield"]: a scheduling point before EVERY source line of the observer's own methods (BaseObserver /
+    EventDispatcher / EventEmitter in observers/api.py), not only at synchronisation operations - so that a step the code
+    takes without the lock it should hold (a check and the call it guards, an unlocked update) can be overtaken.  Only the
+    oracle judges such runs (sound for any interleaving); the lock-step model is not replayed on them."""
+    def local(frame, event, arg):
+        if event == "line" and not s.killed and s.me() is not None:
+            s.yield_point("line")
+        return local
+
+    def tracer(frame, event, arg):
+        if event == "call" and frame.f_code.co_filename.replace(os.sep, "/").endswith(LINE_YIELD_FILES):
+            return local
+        return None
+    return tracer
+
+
 def run_program(prog, chooser, max_steps=6000):
     """Run one program under one schedule. Returns the finished Scheduler (s.events = observation log)."""
     global ENV
@@ -356,9 +377,13 @@ def run_program(prog, chooser, max_steps=6000):
     env.tid[s.spawn("m", main).name] = "m"
     saved_yar = ds.YIELD_AFTER_RELEASE
     ds.YIELD_AFTER_RELEASE = RELEASE_YIELD        # also pre-empt right after a lock is released (state updated outside the lock)
+    if prog.get("line_yield"):
+        threading.settrace(line_tracer(s))        # managed threads are started by s.run(): they inherit the trace function
     try:
         s.run()
     finally:
+        if prog.get("line_yield"):
+            threading.settrace(None)
         ds.YIELD_AFTER_RELEASE = saved_yar
         if undo:
             undo()
@@ -844,7 +869,9 @@ def campaign(ctx, res, prop, programs, judge, n_random=3, explore_runs=0, do_loc
                 sig.update(extra)
                 res.failures.append(Failure(what=f"{prop}: {law}: {detail}", case=case_of(prog, s), signature=sig,
                                             observed=detail, expected="property " + prop))
-            if do_lockstep and prog.get("kind", "scripted") == "scripted" and not s.deadlock and not s.livelock:
+            if prog.get("line_yield"):
+                res.hist("line_level_preemption_runs", prog.get("kind", "scripted"))
+            elif do_lockstep and prog.get("kind", "scripted") == "scripted" and not s.deadlock and not s.livelock:
                 batch.append((prog, s))
             if len(batch) >= 60:
                 flush_lockstep(res, batch)
@@ -885,7 +912,7 @@ def replay_generic(ctx, obj, judges):
         for b in bad:
             print("FAIL:", b)
             rc = 1
-    if case["prog"].get("kind", "scripted") == "scripted" and not s.deadlock and not s.livelock:
+    if case["prog"].get("kind", "scripted") == "scripted" and not s.deadlock and not s.livelock and not case["prog"].get("line_yield"):
         o = lockstep([(case["prog"], s)])[0]
         print("lock-step:", o)
         if o[0] != "ok":
